@@ -732,6 +732,13 @@ impl<'a> Tx<'a> {
                 let a = self.hoist(a);
                 format!("{}({}, {})", name, r, a)
             }
+            // R78 (rayon forwarders): X.par_extend(it) -> par_extend(h, X', it) with X' = this for self / &*self / self.map / self.set
+            "par_extend" if self.ops && m.args.len() == 1 => {
+                let r = toks(&*m.receiver).replace(' ', "");
+                let recv = if r == "self" || r == "(&*self)" || r == "&*self" || r == "self.map" || r == "self.set" || r == "(&self.map)" || r == "(&self.set)" { "this".to_string() } else { self.expr(&m.receiver) };
+                let a = self.expr(&m.args[0]);
+                format!("par_extend(h, {}, {})", recv, a)
+            }
             // R77: HashMap / HashSet serialise through their pinned reference
             "serialize" if self.ops && toks(&*m.receiver).replace(' ', "") == "self.pin()" => {
                 let args: Vec<String> = m.args.iter().map(|a| self.expr(a)).collect();
